@@ -328,6 +328,46 @@ func c18(r *core.Run) {
 			}
 		}
 	}
+	// ---- the extreme "missing columns" case: a block that declares rows but no column at all ----
+	for k := 0; k < 12; k++ {
+		ci++
+		if !r.Take(ci) {
+			continue
+		}
+		rng := r.Rand(ci, "nocols")
+		var w ref.W
+		rev := []int{54460, 54453, 51902}[(k/3)%3]
+		if rev >= ref.RevBlockInfo {
+			ref.EncodeBlockInfo(&w, ref.BlockInfo{Bucket: -1})
+		}
+		w.UVarint(0)
+		rows := 1 + rng.Intn(5)
+		w.UVarint(uint64(rows))
+		var target proto.Result
+		tcol := new(proto.ColUInt32)
+		for i := 0; i < 3; i++ {
+			tcol.Append(uint32(i))
+		}
+		// (an inferring target, Results.Auto(), has no bound columns to compare with: not judged)
+		switch k % 3 {
+		case 0:
+			target = proto.Results{{Name: "a", Data: tcol}}
+		case 1:
+			target = proto.ResultColumn{Name: "a", Data: tcol}
+		default:
+			target = nil
+		}
+		var derr error
+		var blk proto.Block
+		r.Eval()
+		r.NonTrivial("no-columns", k)
+		cs := map[string]any{"block": fmt.Sprintf("0 columns, %d rows, rev %d", rows, rev), "target": []string{"Results", "ResultColumn", "nil"}[k%3]}
+		if p := core.Recover(func() { derr = blk.DecodeBlock(proto.NewReader(bytes.NewReader(w.B)), rev, target) }); p != "" {
+			r.Violation("panic:no-columns-block", p, cs)
+		} else if derr == nil {
+			r.Violation("incompatible-accepted:rows-without-columns", fmt.Sprintf("a block of %d rows and 0 columns was accepted (target %s)", rows, cs["target"]), cs)
+		}
+	}
 	// ---- structural mutations over random schemas ----
 	n := r.Pick(3000, 60000)
 	for k := 0; k < n; k++ {
